@@ -329,3 +329,14 @@ pub fn for_all_scaled_strings(thorough: bool, f: &(dyn Fn(&str) + Sync)) {
         }
     });
 }
+
+
+// ---- user-defined typed qualifiers for the suites: a key that needs lower-casing, and a key that is not a valid key ----
+pub struct UpperTag<'a>(pub &'a str);
+impl purl::qualifiers::well_known::KnownQualifierKey for UpperTag<'_> { const KEY: &'static str = "Tag"; }
+impl<'a> From<UpperTag<'a>> for purl::SmallString { fn from(v: UpperTag<'a>) -> Self { purl::SmallString::from(v.0) } }
+impl<'a> From<&'a str> for UpperTag<'a> { fn from(v: &'a str) -> Self { UpperTag(v) } }
+pub struct BadKey<'a>(pub &'a str);
+impl purl::qualifiers::well_known::KnownQualifierKey for BadKey<'_> { const KEY: &'static str = "bad key"; }
+impl<'a> From<BadKey<'a>> for purl::SmallString { fn from(v: BadKey<'a>) -> Self { purl::SmallString::from(v.0) } }
+impl<'a> From<&'a str> for BadKey<'a> { fn from(v: &'a str) -> Self { BadKey(v) } }
